@@ -9,8 +9,12 @@
   nested unary operand being accepted only under `!`/`sizeof` and only if it is not `++`/`--`;
   see the examples `witNestedUnary`, `exNotOfNeg`, `exNotOfInc` in Lemmas/SyntaxThms.lean.)
   Together with Props/C01 (readable statements are analysed, `skipped` lists only effect-free
-  expression statements) this is the property for statements.  Controlling expressions are NOT
-  inspected by the syntax check at all: the negative witness below is the known finding.
+  expression statements) this is the property for statements.  Controlling expressions: the
+  syntax check now refuses an `if` / `while` / `do-while` / `for` whose condition changes a
+  variable, so full support implies that no controlling expression has an effect
+  (`full_support_means_effect_free_conditions`, no side hypothesis).  The former negative witness
+  `if (x = y + z) { … }` is now a positive example (`coverage … = .ok (1, …)`) in
+  Lemmas/SyntaxThms.lean, next to `while (x++ < 10) { … }`.
 -/
 import Mwp.Lemmas.SyntaxThms
 namespace Mwp.Props.C05
@@ -20,5 +24,10 @@ theorem full_support_means_readable_partial (f m : Node) (hf : f.isFunc = true)
     (h : coverage f = .ok (0, m)) (hid : NoIncDecOfConst f)
     (hs : StmtShaped f) : Spec.unmodellable f = [] :=
   full_implies_modellable_partial f m hf h hid hs
+
+/-- full support ⇒ no `if` / `while` / `do-while` / `for` / `switch` condition changes a variable -/
+theorem full_support_means_effect_free_conditions (f m : Node) (hf : f.isFunc = true)
+    (h : coverage f = .ok (0, m)) : Spec.effectfulConds f = [] :=
+  full_implies_effect_free_conditions f m hf h
 
 end Mwp.Props.C05
